@@ -40,6 +40,15 @@ CHECKS = {
         note="Trusted: ideal AEAD for encrypted variants, rope/struct shims (model-based differential vs the real library incl. real "
              "ChaCha20), z3. bleak client is a scripted stub; lru_cache bypassed via __wrapped__.",
         design="DESIGN.md section 5 C17"),
+    "C16": dict(
+        text="Every TLVStruct subclass found by reflection in the four struct modules gets symbolic instances (full-width integer "
+             "fields, every enum member via rotation variants, opaque bytes/str at boundary sizes 254..511 in one field at a time, "
+             "nested messages, lists of 2-3 messages, packed id lists of 0..3 (thorough 6) ids, one unset field at a time); the real "
+             "encode()/decode() run symbolically and z3 discharges canonical encoding and both round trips field by field. "
+             "Two genuine defects are reported as KNOWN-FINDING (packed id lists, Meshcop duplicate types).",
+        note="Trusted: reference canonical encoder in harness/c16.py+refs.py, struct/int shims (model-based differential vs the real "
+             "library), z3. str fields ASCII; float fields unset; zero-length values outside.",
+        design="DESIGN.md section 5 C16"),
 }
 
 NOT_APPLICABLE = {
